@@ -3,6 +3,7 @@ package main
 import (
 	"fmt"
 	"go/token"
+	"golang.org/x/tools/go/ssa"
 	"strings"
 )
 
@@ -116,6 +117,30 @@ func rulePXDict(c *Ctx) []Obligation {
 						if len(e.Args) > 0 {
 							if el, ok := elemsOf(e.Args[0]); ok {
 								sorted = len(el)
+								// "in key order": ascending by the rendered text of each pair's own key
+								if ci, isCI := e.In.(ssa.CallInstruction); isCI && len(el) >= 2 {
+									okAsc, whyAsc := ascendingNaturalOrder(c, ci)
+									t.note("the pairs are sorted in ascending order of their keys' rendered text", okAsc, "path %s: %s", traceOf(p), whyAsc)
+									fld, _ := sortField(c, ci)
+									for _, x := range el {
+										if x.Op != "struct" {
+											continue
+										}
+										kt := ""
+										for _, lv := range live {
+											for _, fv := range x.Fields {
+												if fv.String() == lv.k {
+													kt = lv.k
+												}
+											}
+										}
+										if fld == "" || kt == "" || x.Fields[fld] == nil {
+											continue
+										}
+										okText := strings.HasPrefix(x.Fields[fld].String(), "rendered(invoke."+c.renderName()+"("+kt+",") && strings.Count(x.Fields[fld].String(), "rendered(") == 1
+										t.note("the sort key of a pair is the rendered text of that pair's key", okText, "path %s: the pair with key %s is sorted by %s", traceOf(p), kt, x.Fields[fld])
+									}
+								}
 							}
 						}
 					}
